@@ -143,7 +143,7 @@ def specs(deep: bool) -> list[dict]:
     return S
 
 
-def perturb(hr: _pyrandom.Random, pool: list[dict]) -> list[str]:
+def perturb(hr: _pyrandom.Random, pool: list[dict], focus: dict | None = None) -> list[str]:
     """a random prior history of RNG and library use; `hr` is a private Random instance (never the global module)"""
     import random, numpy as np, torch
     import maze_dataset.generation.generators as G
@@ -167,12 +167,12 @@ def perturb(hr: _pyrandom.Random, pool: list[dict]) -> list[str]:
         elif a == "seed_torch":
             torch.manual_seed(hr.randrange(10**6))
         elif a == "generate":
-            s = dict(hr.choice(pool))
+            s = dict(focus if (focus is not None and hr.random() < 0.5) else hr.choice(pool))     # often: the very kind of dataset that is requested next
             if hr.random() < 0.6: s["seed"] = hr.randrange(10**6)     # the same kind of dataset under another seed
             try: MazeDataset.generate(make_cfg(s))
             except ValueError: pass    # a history step may hit the documented "no valid start or end positions" of sparse percolation mazes
         elif a == "from_config":
-            s = dict(hr.choice(pool))
+            s = dict(focus if (focus is not None and hr.random() < 0.5) else hr.choice(pool))
             if hr.random() < 0.6: s["seed"] = hr.randrange(10**6)
             try: MazeDataset.from_config(make_cfg(s), load_local=False, save_local=False, do_download=False)
             except ValueError: pass
@@ -208,11 +208,11 @@ def _one_run(spec: dict, hseed, pool) -> dict:
     cfg = make_cfg(spec)
     filters_before = [dict(name=f["name"], args=tuple(f["args"]), kwargs=dict(f["kwargs"])) for f in cfg.applied_filters]
     ser_before = ser(cfg)
-    acts = perturb(_pyrandom.Random(f"hist:{hseed}"), pool) if hseed is not None else []
+    acts = perturb(_pyrandom.Random(f"hist:{hseed}"), pool, spec) if hseed is not None else []
     EV.clear()
     gen = MazeDataset.generate(cfg)
     ev_gen = events_json(EV)
-    acts += perturb(_pyrandom.Random(f"hist2:{hseed}"), pool)[:3] if hseed is not None else []
+    acts += perturb(_pyrandom.Random(f"hist2:{hseed}"), pool, spec)[:3] if hseed is not None else []
     EV.clear()
     fc = MazeDataset.from_config(cfg, load_local=False, save_local=False, do_download=False)
     ev_fc = events_json(EV)
